@@ -1,3 +1,206 @@
-/-! # C05 — property theorems (stub: nothing stated yet) -/
+import SR.Proofs.MarketRun
+/-!
+# C05 — parallel checking is schedule-independent, loses no work, terminates
+
+Property theorems only.
+
+* Section "job market" (market worker), part (b) of DESIGN.md §5.C05: the job market of
+  src/job_market.rs as a transition system (`SR/Market/Machine.lean`: one `Step` per critical section of
+  the mutex). Every theorem is about `mrun (init k tc) ms` for ALL step lists `ms` (steps that are not
+  enabled are skipped), i.e. for every interleaving of `k` workers, the owner of the checker and the
+  timeout thread, every resolution of `notify_one`, and spurious wake-ups. `tc ≤ k`: the market is
+  created for at most as many threads as there are workers (the checkers use `tc = k`).
+* Section "checker machine" (lead): part (a), schedule independence over the checker machine.
+-/
 namespace SR.C05
+open SR.Market
+
+/-! ## job market (part b) -/
+
+/-- **No pending job is dropped, none is handed to two workers.** While the market is open, the jobs held
+    in the shared batches and in the workers' deques, together with the jobs already consumed, are
+    exactly the jobs ever created (as multisets), and no job is in two places. (Once the market is
+    closed the remaining jobs are discarded on purpose: `Drop` clears the batches, `split_and_push`
+    clears the caller's deque.) -/
+theorem C05_conservation (k tc : Nat) (h : tc ≤ k) (ms : List Step)
+    (ho : (mrun (init k tc) ms).isOpen = true) :
+    (tokensIn (mrun (init k tc) ms) ++ (mrun (init k tc) ms).consumed).Perm (mrun (init k tc) ms).created
+    ∧ (tokensIn (mrun (init k tc) ms) ++ (mrun (init k tc) ms).consumed).Nodup := by
+  have inv := minv_mrun ms (minv_init k tc h)
+  have hperm : (tokensIn (mrun (init k tc) ms) ++ (mrun (init k tc) ms).consumed).Perm
+      (mrun (init k tc) ms).created := by
+    rw [List.perm_iff_count]
+    intro t
+    rw [List.count_append]
+    exact inv.t.cons ho t
+  exact ⟨hperm, hperm.nodup_iff.2 inv.t.nodup⟩
+
+/-- **No lost wake-up.** Never: somebody waits on the condition variable, nobody is running and nobody has
+    been notified. (So a waiting worker always has a colleague that will either push work, or stop — and
+    `C05_stop_notifies` says a stopping colleague notifies everybody.) -/
+theorem C05_no_lost_wakeup (k tc : Nat) (h : tc ≤ k) (ms : List Step) :
+    ¬ (∃ (w : Nat) (b : Bool), (mrun (init k tc) ms).pcs[w]? = some (Pc.parked b))
+    ∨ (∃ w : Nat, (mrun (init k tc) ms).pcs[w]? = some Pc.running)
+    ∨ (∃ w : Nat, (mrun (init k tc) ms).pcs[w]? = some (Pc.parked true)) := by
+  have inv := (minv_mrun ms (minv_init k tc h)).p.noLost
+  by_cases hp : ∃ (w : Nat) (b : Bool), (mrun (init k tc) ms).pcs[w]? = some (Pc.parked b)
+  · obtain ⟨w, b, hw⟩ := hp
+    cases b with
+    | true => exact Or.inr (Or.inr ⟨w, hw⟩)
+    | false =>
+      rcases inv (List.mem_of_getElem? hw) with hr | hn
+      · obtain ⟨i, hi⟩ := List.getElem?_of_mem hr; exact Or.inr (Or.inl ⟨i, hi⟩)
+      · obtain ⟨i, hi⟩ := List.getElem?_of_mem hn; exact Or.inr (Or.inr ⟨i, hi⟩)
+  · exact Or.inl hp
+
+/-- **`open_count` never exceeds the number of running workers**; extra `Drop`s (the handle kept by the
+    checker object, the timeout thread's clone) only make it smaller — see the example below, and note the
+    consequence: `is_closed()` can be true while a worker is still evaluating a block. -/
+theorem C05_openCount (k tc : Nat) (h : tc ≤ k) (ms : List Step) :
+    (mrun (init k tc) ms).openCount ≤ (mrun (init k tc) ms).pcs.count .running :=
+  (minv_mrun ms (minv_init k tc h)).p.oc
+
+/-- **A stop is final**: a market that is closed (last worker found no work, any clone dropped — normal
+    return or unwinding panic —, or the timeout fired) never opens again, whatever happens next. -/
+theorem C05_stop_final (s : MState) (ms : List Step) (hc : s.isOpen = false) :
+    (mrun s ms).isOpen = false := mrun_closed ms hc
+
+/-- **A stop reaches every running worker at its next market operation**: in a closed market `pop`
+    returns empty at once (the worker then leaves its loop), `split_and_push` empties the caller's deque
+    and shares nothing, `push` shares nothing, `is_shut_down()` is true (checked once per block). -/
+theorem C05_stop_propagates (s : MState) (w : Nat) (hc : s.isOpen = false)
+    (hw : s.pcs[w]? = some .running) :
+    stepR s (.popBegin w) = some (s, some .empty)
+    ∧ (∀ picks s', step s (.split w picks) = some s' →
+        s'.batches = s.batches ∧ s'.locs = s.locs.set w [] ∧ s'.pcs = s.pcs)
+    ∧ (∀ n picks s', step s (.push w n picks) = some s' → s'.batches = s.batches ∧ s'.pcs = s.pcs)
+    ∧ isShutDown s = true := by
+  refine ⟨by simp [stepR, hw, hc], ?_, ?_, by simp [isShutDown, hc]⟩
+  · intro picks s' hs
+    simp only [step, stepR, hw, hc] at hs
+    split at hs <;> simp at hs
+    obtain ⟨_, rfl⟩ := hs; exact ⟨rfl, rfl, rfl⟩
+  · intro n picks s' hs
+    simp only [step, stepR, hw, hc] at hs
+    split at hs <;> simp at hs
+    obtain ⟨_, rfl⟩ := hs; exact ⟨rfl, rfl⟩
+
+/-- **Whoever stops wakes everybody**: every step that closes an open market, except the timeout thread's
+    first critical section (which is followed by that thread's `Drop`), and every `Drop` of any clone in
+    any state, leaves no waiting worker un-notified. -/
+theorem C05_stop_notifies (s s' : MState) (m : Step) (hs : step s m = some s') :
+    ((s.isOpen = true ∧ s'.isOpen = false ∧ m ≠ .timeoutFire) ∨ m = .xdrop ∨ ∃ w, m = .drop w) →
+    Pc.parked false ∉ s'.pcs := by
+  unfold step at hs
+  rintro (⟨ho, hc, hm⟩ | rfl | ⟨w, rfl⟩)
+  · cases m <;> simp only [stepR] at hs
+    case timeoutFire => exact absurd rfl hm
+    case xdrop => simp at hs; subst hs; exact not_parkedFalse_mem_notifyAll _
+    case drop w =>
+      split at hs
+      · simp at hs; subst hs
+        intro hp; rcases List.mem_or_eq_of_mem_set hp with hp | hp
+        · exact not_parkedFalse_mem_notifyAll _ hp
+        · cases hp
+      · simp at hs
+    case popBegin w =>
+      split at hs
+      · simp [ho] at hs; subst hs
+        exact popLoop_close_notifies s w ho hc
+      · simp at hs
+    case wake w =>
+      split at hs
+      · simp at hs; subst hs
+        exact popLoop_close_notifies _ w ho hc
+      · simp at hs
+    all_goals
+      (repeat' split at hs) <;> simp_all
+      all_goals (subst hs; simp_all)
+  · simp [stepR] at hs; subst hs; exact not_parkedFalse_mem_notifyAll _
+  · simp only [stepR] at hs
+    split at hs
+    · simp at hs; subst hs
+      intro hp; rcases List.mem_or_eq_of_mem_set hp with hp | hp
+      · exact not_parkedFalse_mem_notifyAll _ hp
+      · cases hp
+    · simp at hs
+
+/-- **After a `Drop` nothing is handed out any more**: once any clone has been dropped — in particular once
+    any worker has exited — the market is closed, holds no batch, and a worker that wakes up gets the
+    empty answer or waits again (and then a colleague is still running: `C05_no_lost_wakeup`), never jobs. -/
+theorem C05_stop_after_drop (k tc : Nat) (h : tc ≤ k) (ms : List Step)
+    (hd : (mrun (init k tc) ms).dropped = true ∨ Pc.exited ∈ (mrun (init k tc) ms).pcs) :
+    (mrun (init k tc) ms).isOpen = false ∧ (mrun (init k tc) ms).batches = []
+    ∧ ∀ w s' r, stepR (mrun (init k tc) ms) (.wake w) = some (s', some r) → r = .empty ∨ r = .park := by
+  have inv := (minv_mrun ms (minv_init k tc h)).p
+  have hd' : (mrun (init k tc) ms).dropped = true := hd.elim id inv.exited
+  obtain ⟨hc, hb⟩ := inv.dropped hd'
+  refine ⟨hc, hb, ?_⟩
+  intro w s' r hs
+  simp only [stepR] at hs
+  split at hs
+  · simp only [popLoop, hb] at hs
+    split at hs <;> simp at hs
+    · exact Or.inl hs.2.symm
+    · exact Or.inr hs.2.symm
+  · simp at hs
+
+/-! ### non-vacuity and what is NOT true -/
+
+-- a run with real sharing: the owner pushes 4 jobs, worker 1 finds nothing and waits, worker 0 takes the
+-- batch, evaluates one job generating two, and shares: the market is open and holds a batch for worker 1
+example :
+    let s := mrun (init 2 2) [.xpush [1, 2, 3, 4] [], .popBegin 0, .popBegin 1, .work 0 1 [5, 6], .split 0 [1]]
+    s.isOpen = true ∧ s.batches = [[2, 3]] ∧ s.locs = [[5, 6, 1], []] ∧ s.consumed = [4]
+      ∧ s.pcs = [.running, .parked true] ∧ s.openCount = 1 := by decide
+
+-- the woken worker takes the shared batch
+example :
+    let s := mrun (init 2 2) [.xpush [1, 2, 3, 4] [], .popBegin 0, .popBegin 1, .work 0 1 [5, 6], .split 0 [1], .wake 1]
+    s.batches = [] ∧ s.locs = [[5, 6, 1], [2, 3]] ∧ s.pcs = [.running, .running] ∧ s.openCount = 2 := by decide
+
+-- two waiting workers, five jobs: two batches of one job each (`pieces = 3`, `size = 1`), both notified
+example :
+    let s := mrun (init 3 3) [.xpush [1, 2, 3, 4, 5] [], .popBegin 0, .popBegin 1, .popBegin 2, .split 0 [2, 1]]
+    s.batches = [[4], [5]] ∧ s.locs = [[1, 2, 3], [], []] ∧ s.pcs = [.running, .parked true, .parked true] := by
+  decide
+
+-- the last active worker closes the market and notifies the waiting one
+example :
+    let s := mrun (init 2 2) [.popBegin 0, .popBegin 1]
+    s.isOpen = false ∧ s.pcs = [.parked true, .running] ∧ s.openCount = 0 := by decide
+
+-- `split_and_push` with more idle workers than jobs shares NOTHING (`size = len / pieces = 0`):
+-- 3 threads, two of them waiting, the third holds two jobs and keeps both
+example :
+    let s := mrun (init 3 3) [.xpush [1, 2] [], .popBegin 0, .popBegin 1, .popBegin 2, .split 0 []]
+    s.batches = [] ∧ s.locs = [[1, 2], [], []] ∧ s.pcs = [.running, .parked false, .parked false] := by decide
+
+-- extra `Drop`s make `open_count` smaller than the number of running workers: after the timeout thread's
+-- two critical sections and the exit of two workers `is_closed()` is already true although worker 2 is
+-- still running (e.g. in the middle of a block): `Checker::is_done()` can be true before `join` returns
+example :
+    let s := mrun (init 3 3) [.timeoutFire, .xdrop, .drop 0, .drop 1]
+    isClosed s = true ∧ s.pcs = [.exited, .exited, .running] ∧ s.openCount = 0 := by decide
+
+-- the draft formulation "once a worker has exited every waiting worker is notified" is NOT an invariant:
+-- a worker woken by a `Drop` waits AGAIN (un-notified, in a closed market) as long as `open_count` says
+-- that a colleague is still running; it is woken for good by that colleague's `Drop`
+-- (`C05_stop_notifies`), which comes at the colleague's next market operation (`C05_stop_propagates`)
+example :
+    let s := mrun (init 3 3) [.popBegin 2, .drop 0, .wake 2]
+    s.isOpen = false ∧ s.pcs = [.exited, .running, .parked false] ∧ s.openCount = 1 := by decide
+example :
+    let s := mrun (init 3 3) [.popBegin 2, .drop 0, .wake 2, .drop 1, .wake 2]
+    s.pcs = [.exited, .exited, .running] ∧ s.openCount = 0
+      ∧ stepR s (.popBegin 2) = some (s, some .empty) := by decide
+
+-- in the window between the timeout thread's two critical sections a notified worker may still take a
+-- batch (it does not re-read `open` after waking); it stops at its next `is_shut_down()` check
+example :
+    let s := mrun (init 2 2) [.popBegin 1, .xpush [7] [1], .timeoutFire]
+    s.isOpen = false ∧ (stepR s (.wake 1)).map (·.2) = some (some (.got [7])) := by decide
+
+/-! ## checker machine: lead -/
+
 end SR.C05
